@@ -157,6 +157,47 @@ theorem cseNodes_outs_length (limit : Nat) (gins : List VId) :
         rw [cseNodes_outs_length limit gins ns, cseFixOuts_length]; simp
       · exact cseNodes_outs_length limit gins ns _ σ outs
 
+theorem cseNodes_keeps_stochastic (limit : Nat) (gins : List VId) :
+    ∀ (ns tbl : List Node) (σ : Subst) (outs : List VId) (n : Node), n ∈ ns → isStochasticOp n.op = true →
+    ∃ n' ∈ (cseNodes limit gins tbl σ outs ns).nodes, n'.op = n.op ∧ n'.outs = n.outs ∧ n'.attrs = n.attrs
+  | [], _, _, _, n, h, _ => by simp at h
+  | .mk op attrs ins nouts bodies :: ns, tbl, σ, outs, n, hn, hst => by
+    simp only [cseNodes]
+    rcases List.mem_cons.1 hn with hn | hn
+    · subst hn
+      have hskip : cseSkip limit op attrs bodies = true := by
+        simp only [Node.op] at hst
+        simp only [cseSkip, Bool.or_eq_true]
+        right
+        simpa [isNonDeterministicOp, isStochasticOp] using hst
+      rw [if_pos hskip]
+      exact ⟨_, List.mem_cons_self, rfl, rfl, rfl⟩
+    · split
+      · obtain ⟨n', h1, h2⟩ := cseNodes_keeps_stochastic limit gins ns tbl σ outs n hn hst
+        exact ⟨n', List.mem_cons_of_mem _ h1, h2⟩
+      · split
+        · obtain ⟨n', h1, h2⟩ := cseNodes_keeps_stochastic limit gins ns tbl _ _ n hn hst
+          exact ⟨n', List.mem_append_right _ h1, h2⟩
+        · obtain ⟨n', h1, h2⟩ := cseNodes_keeps_stochastic limit gins ns _ σ outs n hn hst
+          exact ⟨n', List.mem_cons_of_mem _ h1, h2⟩
+
+/-- **C05_cse_skips** — the determinism assumption of `C05_cse` made explicit.  In the semantics every
+    operator is a function of (operator, attributes, bodies, arguments) EXCEPT the stochastic operators
+    (`isStochasticOp`: RandomUniform, RandomNormal, RandomUniformLike, RandomNormalLike, Multinomial,
+    Bernoulli), whose interpretation also receives the node's output ids, so two such nodes may differ on
+    equal arguments.  CSE never removes or merges a node of a stochastic operator: every such node of the
+    main graph is still there afterwards, with its operator, attributes and outputs.  (`C05_cse` itself
+    is proved for this semantics: its proof needs that the skip list covers `isStochasticOp`.) -/
+theorem C05_cse_skips (limit : Nat) (m : Model) (n : Node) (hn : n ∈ m.graph.nodes)
+    (hst : isStochasticOp n.op = true) :
+    ∃ n' ∈ (cseModel limit m).graph.nodes, n'.op = n.op ∧ n'.outs = n.outs ∧ n'.attrs = n.attrs := by
+  obtain ⟨g, fs⟩ := m
+  cases g with
+  | mk inputs outputs inits nodes =>
+    simp only [Graph.nodes] at hn
+    simp only [cseModel, Graph.nodes]
+    exact cseNodes_keeps_stochastic limit inputs nodes [] [] outputs n hn hst
+
 theorem forall2_refl {α : Type} {R : α → α → Prop} (h : ∀ a, R a a) : ∀ l : List α, List.Forall₂ R l l
   | [] => List.Forall₂.nil
   | a :: l => List.Forall₂.cons (h a) (forall2_refl h l)
@@ -419,18 +460,19 @@ theorem C05_toposort (m m' : Model) (hv : validModel m = true) (hv' : validModel
     simp only [Graph.freeInputs, Graph.inputs, Graph.inits]
     rw [hr.1.1.1.1, hr.1.1.2]
 
-/-- **C05_toposort_sorted** — in pass sequences: on a valid (hence topologically ordered) model the
-    stable sort is the identity (C12), which is what the model of the pass is. -/
-theorem C05_toposort_sorted (m : Model) : Preserves topoSortModel m :=
+/-- NOT a property theorem (definitional): in pass sequences the model of TopologicalSortPass on a valid
+    (hence topologically ordered) model is the identity, by stability of the sort (C12). -/
+theorem topoSortSorted_preserves (m : Model) : Preserves topoSortModel m :=
   ⟨fun _ _ _ => rfl, fun _ _ _ _ _ => rfl, rfl, rfl, rfl⟩
 
-/-- **C05_clear_meta**, **C05_name_fix** — metadata, doc strings and names are not part of the IR the
-    denotation is defined on (values are identities): on this IR both passes are the identity, so the
-    statement is immediate; the content of the check for these two passes is the correspondence
-    (real result has the structure of the input) and the evaluation oracle. -/
-theorem C05_clear_meta (m : Model) : Preserves clearMetaModel m :=
+/-- NOT property theorems (definitional; used only so that `C05_compose` covers sequences containing these
+    passes): metadata, doc strings and names are not part of the IR the denotation is defined on (values
+    are identities), so on this IR ClearMetadataAndDocStringPass and NameFixPass are the identity.  What is
+    checked for these two passes is the correspondence (the real result has the structure of the input)
+    and the evaluation oracle. -/
+theorem clearMeta_preserves (m : Model) : Preserves clearMetaModel m :=
   ⟨fun _ _ _ => rfl, fun _ _ _ _ _ => rfl, rfl, rfl, rfl⟩
-theorem C05_name_fix (m : Model) : Preserves nameFixModel m :=
+theorem nameFix_preserves (m : Model) : Preserves nameFixModel m :=
   ⟨fun _ _ _ => rfl, fun _ _ _ _ _ => rfl, rfl, rfl, rfl⟩
 
 theorem Preserves.trans {p q : Model → Model} {m : Model} (hp : Preserves p m) (hq : Preserves q (p m)) :
@@ -452,9 +494,9 @@ theorem C05_pass (p : PassId) (m : Model) (h : p.pre m = true) : Preserves p.run
   | rmInitInputs => exact C05_rm_init_inputs m
   | addInitInputs => exact C05_add_init_inputs m
   | outputFix => exact C05_output_fix m h
-  | clearMeta => exact C05_clear_meta m
-  | nameFix => exact C05_name_fix m
-  | topoSort => exact C05_toposort_sorted m
+  | clearMeta => exact clearMeta_preserves m
+  | nameFix => exact nameFix_preserves m
+  | topoSort => exact topoSortSorted_preserves m
 
 /-- **C05_compose** — any sequence (any length) of the modelled passes preserves what the model
     computes, the number of outputs and the non-initializer inputs, provided every pass of the
@@ -478,6 +520,27 @@ example : (ieModel ⟨.mk [0] [2] [] [.mk ⟨"", "Neg", ""⟩ [] [some 0] [1] []
 /-- non-vacuity: CSE merges the second `Neg(0)`; its output 2 is a graph output next to the kept
     node's output 1, so an Identity node producing it is inserted -/
 example : (cseModel 10 ⟨.mk [0] [1, 2] [] [.mk ⟨"", "Neg", ""⟩ [] [some 0] [1] [], .mk ⟨"", "Neg", ""⟩ [] [some 0] [2] []], []⟩).graph.nodes.length = 2 := by
+  decide
+
+/-- non-vacuity: dedup merges the second of two equal initializers and rewires its use -/
+example : (dedupModel 1024 ⟨.mk [0] [3] [(1, ⟨1, [1], [0, 0, 128, 63], []⟩), (2, ⟨1, [1], [0, 0, 128, 63], []⟩)]
+    [.mk ⟨"", "Add", ""⟩ [] [some 1, some 2] [3] []], []⟩).graph.inits.length = 1 := by decide
+
+/-- non-vacuity: a Constant node becomes an initializer of its graph -/
+example : (liftConstModel true 0 ⟨.mk [0] [2] [] [.mk ⟨"", "Constant", ""⟩ [("value_int", .int 7)] [] [1] [],
+    .mk ⟨"", "Add", ""⟩ [] [some 0, some 1] [2] []], []⟩).graph.inits.length = 1 := by decide
+
+/-- non-vacuity: a graph input used directly as output gets an Identity node -/
+example : (ofixModel ⟨.mk [0] [0, 0] [] [], []⟩).graph.nodes.length = 2 := by decide
+
+/-- non-vacuity: the initializer of an If branch moves to the main graph -/
+example : (lsiModel ⟨.mk [0] [2] [] [.mk ⟨"", "If", ""⟩ [] [some 0] [2]
+    [.mk [] [3] [(1, ⟨1, [], [0, 0, 0, 0], []⟩)] [.mk ⟨"", "Neg", ""⟩ [] [some 1] [3] []]]], []⟩).graph.inits.length = 1 := by
+  decide
+
+/-- non-vacuity of `C05_compose`: a three-pass chain on a valid model satisfies `chainOK` -/
+example : chainOK [.outputFix, .identity, .dce]
+    ⟨.mk [0] [2, 2] [] [.mk ⟨"", "Neg", ""⟩ [] [some 0] [1] [], .mk ⟨"", "Identity", ""⟩ [] [some 1] [2] []], []⟩ = true := by
   decide
 
 end IrVerif.Passes
